@@ -1,5 +1,7 @@
 import TongoProofs.Lemmas.TlDecode
 import TongoProofs.Lemmas.Helpers08
+import TongoProofs.Lemmas.TlbRead
+import TongoProofs.Lemmas.TlbSnakeCost
 /-! Property C08 — TL-B and TL decoders are total on untrusted input: value or error, never a panic, no allocation or
 time out of proportion to the input. Property theorems only; lemmas live in `TongoProofs/Lemmas`.
 
@@ -130,5 +132,81 @@ theorem tuple_orig_nil_panics : (tupleUnmarshalStruct false 0 .nil 0).isPanic = 
 error, so `values[i]` is in range -/
 theorem tuple_total (len : Nat) (data : Tuple) (numField : Nat) :
     (tupleUnmarshalStruct true len data numField).isPanic = false := tupleUnmarshalStruct_np len data numField
+
+/-! ## TL-B: cell-reading primitives and the hand-written decoders driven by untrusted data
+
+Element decoders (values, keys, top-of-stack values) are parameters assumed not to panic: the reflection-driven
+generic decoder over all shipped types has no theorem; it is covered by the fault-injection oracles of the harness. -/
+
+open Tongo.Tlb in
+/-- The reading primitives return a value or an error on every cell content as long as the requested width / count is
+not negative; `ReadLimUint` and `ReadUnary`, `ReadBit`, `NextRef` on every argument at all. -/
+theorem tlb_prims_total (r : Rd) (n : Int) (hn : 0 ≤ n) (m : Int) :
+    (readBit r).isPanic = false ∧ (nextRef r).isPanic = false ∧ (readUnary r).isPanic = false ∧
+    (readUint n r).isPanic = false ∧ (readBits n r).isPanic = false ∧ (skip n r).isPanic = false ∧
+    (readLimUint m r).isPanic = false :=
+  ⟨readBit_np r, nextRef_np r, readUnary_np r, readUint_np n hn r, readBits_np n hn r, skip_np n hn r,
+    readLimUint_np m r⟩
+
+/-- … and a negative width does panic: the callers' index arithmetic is what keeps the decoders total. -/
+theorem tlb_prims_negative_width_panics : (Tlb.readUint (-8) ⟨[], []⟩).isPanic = true :=
+  Tlb.readUint_negative_panics
+
+/-- `loadLabel` / `loadLabelSize` never panic: for every claimed remaining key size (a Go int, negative included —
+`ReadLimUint` then reads 64 bits and `int(ln)` may wrap), every cell content, key prefix and key capacity. The
+`hml_same` loop is bounded by the key capacity, not by the 64-bit count read from the cell. -/
+theorem label_total (size : Int) (r : Tlb.Rd) (key : List Bool) (cap : Nat) :
+    (Tlb.loadLabel size r key cap).isPanic = false ∧ (Tlb.loadLabelSize size r).isPanic = false :=
+  ⟨Tlb.loadLabel_np size r key cap, Tlb.loadLabelSize_np size r⟩
+
+/-- `Hashmap.mapInner` (also HashmapE / HashmapAug / ChunkedData through it): no panic on any cell tree — short
+cells, missing references, pruned branches anywhere — and at most one visit per cell of the unfolded tree.
+`keySize ≤ 1023`: the key type fits a cell (true of every `FixedSize()` in the library). -/
+theorem hashmap_total (leaf : Tlb.Rd → Outcome Unit) (hleaf : ∀ r, (leaf r).isPanic = false) (keySize : Nat)
+    (hk : keySize ≤ 1023) (c : Cell) (left : Int) (pfx : List Bool) :
+    (Tlb.mapInner leaf keySize c left pfx).1.isPanic = false ∧
+    (Tlb.mapInner leaf keySize c left pfx).2 ≤ Tlb.cellCount c :=
+  ⟨Tlb.mapInner_np leaf hleaf keySize hk c left pfx, Tlb.mapInner_steps leaf keySize c left pfx⟩
+
+/-- `countLeafs` (hashmapAugExtraCountLeafs): no panic for ANY key sizes — `leftKeySize - (1 + size)` may go negative
+when a label is longer than the remaining key (nothing bounds the unary length here), and nothing breaks — and at
+most one visit per cell. -/
+theorem countLeafs_total (keySize : Int) (c : Cell) (left : Int) :
+    (Tlb.countLeafs keySize c left).1.isPanic = false ∧ (Tlb.countLeafs keySize c left).2 ≤ Tlb.cellCount c :=
+  Tlb.countLeafs_spec keySize c left
+
+/-- SnakeData (Bytes, Text, FixedLengthText's neighbours, ChunkedData chunks): both decoders are total, visit each cell
+of the chain once and return the same data; the repaired decoder copies every bit below the root exactly once. -/
+theorem snake_steps (c : Cell) : Tlb.SnakeSpec c := Tlb.snake_spec c
+
+/-- DEFECT (code as found): on a chain of `d + 1` cells with `b` bits each the decoder copied `b · d(d+1)/2` bits —
+quadratic in the input (measured on Go: 1000 full cells 4 s, 10000 cells 7 min). Replayed by the `chain` stream. -/
+theorem snake_orig_quadratic (b d : Nat) :
+    ∃ k, (Tlb.snake true (Tlb.chain b d)).1 = .ok (List.replicate ((d + 1) * b) true, k) ∧ 2 * k = b * d * (d + 1) :=
+  Tlb.snakeOrig_chain b d
+
+/-- `BinTree` (decodeRecursiveBinTree): total, one visit per cell. -/
+theorem binTree_total (c : Cell) : (Tlb.binTree c).1.isPanic = false ∧ (Tlb.binTree c).2 ≤ Tlb.cellCount c :=
+  Tlb.binTree_spec c
+
+/-- `VmStack` (getStackListItems): total whatever 24-bit depth the cell announces — the recursion is bounded by the
+cells that exist, one visit per cell. -/
+theorem vmStackList_total (tos : Tlb.Rd → Outcome Unit) (htos : ∀ r, (tos r).isPanic = false) (c : Cell) (depth : Nat) :
+    (Tlb.stackList tos c depth).1.isPanic = false ∧ (Tlb.stackList tos c depth).2 ≤ Tlb.cellCount c :=
+  Tlb.stackList_spec tos htos c depth
+
+/-- `Maybe`, `Either`, `Ref` on cells lacking bits or references, with a pruned branch or a library cell (no resolver)
+where an ordinary cell is expected: value or error. -/
+theorem maybe_either_ref_total (inner other : Tlb.Rd → Outcome Tlb.Rd) (h1 : ∀ r, (inner r).isPanic = false)
+    (h2 : ∀ r, (other r).isPanic = false) (r : Tlb.Rd) :
+    (Tlb.maybe inner r).isPanic = false ∧ (Tlb.either inner other r).isPanic = false ∧
+    (Tlb.ref inner r).isPanic = false :=
+  ⟨Tlb.maybe_np inner h1 r, Tlb.either_np inner other h1 h2 r, Tlb.ref_np inner h1 r⟩
+
+/-- non-vacuity of the parameter hypotheses: a value decoder that reads a 32-bit integer never panics -/
+example : ∀ r : Tlb.Rd, ((Tlb.readUint 32 r).bind fun _ => Outcome.ok ()).isPanic = false := by
+  intro r
+  have := Tlb.readUint_np 32 (by decide) r
+  cases h : Tlb.readUint 32 r <;> simp_all [Outcome.bind, Outcome.isPanic]
 
 end Tongo.C08
